@@ -517,6 +517,15 @@ class Runner:
             rc2, to2, out2, wall2 = run_cmd(cmd2, self.ds, max(h.timeout * 3, 600), log2)
             res["playback"] = parse_kani(out2)["playback"]
             res["wall_s"] = round(wall + wall2, 2)
+            if not res["playback"]:
+                # the counterexample run was cut short (memory pressure, cap): once more, with the machine to itself
+                wait_for_memory(need_gb=30.0)
+                rc2, to2, out2, wall3 = run_cmd(cmd2, self.ds, max(h.timeout * 3, 600), log2)
+                res["playback"] = parse_kani(out2)["playback"]
+                res["wall_s"] = round(wall + wall2 + wall3, 2)
+                if not res["playback"]:
+                    res["playback_note"] = "counterexample run gave no test (%s)" % (
+                        "time-out" if to2 else "killed or no trace: " + out2.strip().splitlines()[-1][:120] if out2.strip() else "no output")
         return res
 
 
@@ -605,7 +614,7 @@ def native_replay(scratch, ds, h, tests, tag):
         names.append(nm)
         body += t.replace(m.group(1), nm) + "\n"
     if not names:
-        return False, "no playback test generated"
+        return False, "no playback test generated" + ((": " + getattr(h, "_playback_note", "")) if getattr(h, "_playback_note", "") else "")
     with open(hcopy, "w") as f:
         f.write(body)
     # Kani stubs are not applied in a native build: re-create the ones that matter by injecting a
